@@ -397,15 +397,21 @@ class vDDDLists:
             dt_list = [dt_list]
         vDDD = []
         tzid = None
+        value_types = set()
         for dt in dt_list:
             dt = vDDDTypes(dt)
             vDDD.append(dt)
+            value_types.add(dt.params.get('VALUE'))
             if 'TZID' in dt.params:
                 tzid = dt.params['TZID']
 
+        self.params = Parameters()
+        if len(value_types) == 1 and None not in value_types:
+            # a list of DATE or PERIOD values is not of the default DATE-TIME type
+            self.params['VALUE'] = value_types.pop()
         if tzid:
             # NOTE: no support for multiple timezones here!
-            self.params = Parameters({'TZID': tzid})
+            self.params['TZID'] = tzid
         self.dts = vDDD
 
     def to_ical(self):
